@@ -119,11 +119,25 @@ Theorem C14_lookahead_irrelevant : forall lk rc r,
 Proof. exact lookahead_irrelevant. Qed.
 Print Assumptions C14_lookahead_irrelevant.
 
+(* "with no error ... for any depth": the runaway-unwrap guard of extract_iter (constant and
+   reset-at-a-Frame both regenerated from the source) is never reached by a task's chain, however
+   many nested awaits / ping-pong levels it has — every coroutine link yields a frame, which
+   resets the counter.  Without the reset the guard would cap the chain at its constant. *)
+Theorem C14_guard_progress : forall n,
+  guard_run SrcFacts.unwrap_guard SrcFacts.c14_guard_reset_on_frame 0 (task_chain n) = false.
+Proof. exact (guard_progress SrcFacts.unwrap_guard SrcFacts.c14_guard_reset_on_frame eq_refl eq_refl). Qed.
+Print Assumptions C14_guard_progress.
+
+Theorem C14_guard_needs_reset : forall g n, g <= n -> guard_run g false 0 (task_chain n) = true.
+Proof. exact guard_noreset_task. Qed.
+Print Assumptions C14_guard_needs_reset.
+
 (* what a passing case of a generated file means: the Stack observed from the real extract()
    equals the model's result on the abstracted world, and (tc_iso) is isomorphic to Trio's tables *)
 Theorem C14_case_sound : forall k, case_ok k = true ->
   tc_obs k = extract (tc_rc k) (tc_root k) /\
-  (tc_iso k = true -> iso (tlookup (tc_nurs k)) (tlookup (tc_kids k)) (tc_obs k)).
+  (tc_iso k = true -> iso (tlookup (tc_nurs k)) (tlookup (tc_kids k)) (tc_obs k)) /\
+  tc_clean k = true.
 Proof. exact case_ok_sound. Qed.
 Print Assumptions C14_case_sound.
 
